@@ -36,6 +36,7 @@ const (
 	verifC16ErrBuf
 	verifC16CASSlice
 	verifC16HandlerError // not a buffer: OnError returns an error
+	verifC16Wrapped      // original only: a buffer that already has an (inner) error handler attached
 )
 
 var (
@@ -44,12 +45,20 @@ var (
 		status.Error(codes.Unavailable, "verif: I/O error of source 1"),
 		status.Error(codes.Unavailable, "verif: I/O error of source 2"),
 		status.Error(codes.Unavailable, "verif: I/O error of source 3"),
+		status.Error(codes.Unavailable, "verif: I/O error of source 4"),
+		status.Error(codes.Unavailable, "verif: I/O error of source 5"),
+		status.Error(codes.Unavailable, "verif: I/O error of source 6"),
+		status.Error(codes.Unavailable, "verif: I/O error of source 7"),
 	}
 	verifC16BufErrs = []error{
 		status.Error(codes.DataLoss, "verif: error buffer 0"),
 		status.Error(codes.DataLoss, "verif: error buffer 1"),
 		status.Error(codes.DataLoss, "verif: error buffer 2"),
 		status.Error(codes.DataLoss, "verif: error buffer 3"),
+		status.Error(codes.DataLoss, "verif: error buffer 4"),
+		status.Error(codes.DataLoss, "verif: error buffer 5"),
+		status.Error(codes.DataLoss, "verif: error buffer 6"),
+		status.Error(codes.DataLoss, "verif: error buffer 7"),
 	}
 	verifC16HandlerErrs = []error{
 		status.Error(codes.Aborted, "verif: handler error 0"),
@@ -58,6 +67,8 @@ var (
 		status.Error(codes.Aborted, "verif: handler error 3"),
 		status.Error(codes.Aborted, "verif: handler error 4"),
 		status.Error(codes.Aborted, "verif: handler error 5"),
+		status.Error(codes.Aborted, "verif: handler error 6"),
+		status.Error(codes.Aborted, "verif: handler error 7"),
 	}
 )
 
@@ -225,9 +236,10 @@ func (r verifC16ChunkSrc) Close() { r.s.closes++ }
 // needs to know about it.
 type verifC16Buf struct {
 	kind  int
-	st    *verifC16Stream // reader, chunk
-	data  []byte          // slice, casslice (validated case)
-	err   error           // errbuf, casslice (rejected case)
+	st    *verifC16Stream  // reader, chunk
+	data  []byte           // slice, casslice (validated case)
+	err   error            // errbuf, casslice (rejected case)
+	inner *verifC16Handler // wrapped
 	integ *verifIntegrity
 	buf   Buffer
 }
@@ -278,6 +290,7 @@ type verifC16Handler struct {
 	maxT    int
 	options []verifC16Opt // options[i]: what call i+1 may return; beyond that: an error
 	retried bool          // consumer retries whole operations (ToByteSlice, ReadAt) instead of stitching
+	idBase  int           // first index into the error value tables (distinct per handler)
 
 	calls   int
 	done    int
@@ -301,11 +314,11 @@ func (h *verifC16Handler) OnError(err error) (Buffer, error) {
 		level = h.options[i].level
 	}
 	if kind == verifC16HandlerError {
-		h.lastErr = verifC16HandlerErrs[i]
+		h.lastErr = verifC16HandlerErrs[h.idBase+i]
 		return nil, h.lastErr
 	}
 	h.lastErr = nil
-	b := verifC16NewBuf(h.ref, len(h.bufs), kind, h.maxT, level)
+	b := verifC16NewBuf(h.ref, h.idBase+len(h.bufs), kind, h.maxT, level)
 	h.bufs = append(h.bufs, b)
 	return b.buf, nil
 }
@@ -324,6 +337,8 @@ func (h *verifC16Handler) stitched() []byte {
 			d = b.st.delivered()
 		case verifC16Slice:
 			d = b.data
+		case verifC16Wrapped:
+			d = b.inner.stitched()
 		}
 		if len(d) > len(s) {
 			s = append(s, d[len(s):]...)
@@ -352,6 +367,9 @@ func (h *verifC16Handler) checkArg(err error) {
 		if status.Code(err) == codes.Internal {
 			vnd.Assert(vnd.Not(verifBytesEqual(cur.st.delivered(), h.ref.data)), "a validation failure was reported for a source that delivered exactly the object")
 		}
+	case verifC16Wrapped:
+		// an inner handler sees every failure first: only what it returned gets out
+		vnd.Assert(err == cur.inner.lastErr, "outer handler was offered something other than the error the inner handler returned")
 	case verifC16ErrBuf:
 		vnd.Assert(err == cur.err, "handler was offered something other than the error buffer's error")
 	case verifC16Slice:
@@ -364,6 +382,9 @@ func (h *verifC16Handler) checkArg(err error) {
 func (h *verifC16Handler) checkEnd(strict bool) {
 	vnd.Assert(h.done == 1, "Done not called exactly once")
 	for _, b := range h.bufs {
+		if b.inner != nil {
+			b.inner.checkEnd(strict)
+		}
 		if b.st == nil {
 			continue
 		}
